@@ -79,15 +79,15 @@ def fixed_tapes(k):
 #   tape spec: ("prod", names | None) = every (k-1)-tuple over that alphabet;  ("fixed",) = fixed_tapes(k)
 SPLIT_GRID = {
     "thorough": {2: (None, ("prod", None)), 3: (None, ("prod", None)), 4: (None, ("prod", T6N)),
-                 5: (None, ("prod", T4N)), 6: (None, ("prod", T4N))},
+                 5: (None, ("prod", T6N)), 6: (None, ("prod", T4N))},
     "quick": {2: (None, ("prod", None)), 3: (None, ("prod", None)), 4: (None, ("prod", T4N)),
               5: (None, ("prod", T3N)), 6: (None, ("prod", T3N))},
 }
 COMBINE_GRID = {
     "thorough": {2: (None, ("prod", None)), 3: (None, ("prod", T6N)), 4: (T6N, ("prod", T4N)),
-                 5: (T4N, ("prod", T2N)), 6: (T4N, ("prod", T2N))},
-    "quick": {2: (None, ("prod", None)), 3: (T6N, ("prod", T4N)), 4: (T3N, ("prod", T2N)),
-              5: (["2^128-1", "seeded1"], ("fixed",)), 6: (["2^128-1", "seeded1"], ("fixed",))},
+                 5: (T4N, ("prod", T3N)), 6: (T4N, ("prod", T2N))},
+    "quick": {2: (None, ("prod", None)), 3: (T6N, ("prod", T4N)), 4: (T4N, ("prod", T2N)),
+              5: (["2^128-1", "seeded1"], ("prod", T2N)), 6: (["2^128-1", "seeded1"], ("fixed",))},
 }
 
 
@@ -231,20 +231,32 @@ def check_split(k, n, ssss, secret, tape, acc, part="split"):
         acc.error("split(k=%d) read the tape as %r, not as k-1 draws of 16 bytes: the tape model of the harness is out of date"
                   % (k, calls))
         return None
-    exp = G.shamir_split(k, n, sb, list(reversed(tape)), ssss)
     acc.seen("classes", (part, k, n, ssss, "ok"))
+    idxs = [i for i, _ in shares]
+    if len(shares) != n:
+        acc.violation("C20/split/number-of-shares-is-not-n", "%s returned %d shares" % (what0, len(shares)), case, size=size)
+        return None
+    if len(set(idxs)) != n or any(not 1 <= i <= MASK for i in idxs):
+        # index 0 is q(0) = the secret itself (one share < k reveals it); a repeated index cannot be combined
+        acc.violation("C20/split/share-index-zero-or-repeated",
+                      "%s returned indexes %r: a share with index 0 is the polynomial at 0, i.e. the secret itself (%s), so fewer "
+                      "than k shares are NOT consistent with every secret; repeated indexes are refused by combine()"
+                      % (what0, idxs[:8], dict(shares).get(0, b"").hex()), case, size=size)
+        return shares
+    if idxs == list(range(1, n + 1)):
+        exp = G.shamir_split(k, n, sb, list(reversed(tape)), ssss)
+    else:
+        # the statement does not fix the numbering: evaluate the reference polynomial at the indexes really used
+        acc.observe("split() numbers the shares differently from the documented 1..n")
+        poly = [secret] + list(reversed(tape)) + ([1] if ssss else [])
+        exp = [(i, G.to_bytes(G.poly_eval(poly, i))) for i in idxs]
     if shares != exp:
         ok = False
-        if [i for i, _ in shares] != [i for i, _ in exp]:
-            acc.violation("C20/split/share-indexes-are-not-1..n",
-                          "%s returned indexes %r, documented: n shares with indexes 1..n"
-                          % (what0, [i for i, _ in shares][:8]), case, size=size)
-        else:
-            j = next(i for i in range(len(exp)) if shares[i] != exp[i])
-            acc.violation("C20/split/%s/shares-differ-from-polynomial-of-tape-coefficients" % mode(ssss),
-                          "%s: share #%d is %s, the polynomial secret + sum a_i X^i%s with the drawn coefficients gives %s"
-                          % (what0, exp[j][0], shares[j][1].hex(), " + X^k" if ssss else "", exp[j][1].hex()),
-                          case, size=size)
+        j = next(i for i in range(len(exp)) if shares[i] != exp[i])
+        acc.violation("C20/split/%s/shares-differ-from-polynomial-of-tape-coefficients" % mode(ssss),
+                      "%s: share #%d is %s, the polynomial secret + sum a_i X^i%s with the drawn coefficients gives %s"
+                      % (what0, exp[j][0], shares[j][1].hex(), " + X^k" if ssss else "", exp[j][1].hex()),
+                      case, size=size)
     if ok:
         acc.count("split_ok")
         if len(acc.distinct.get("share_values", ())) < 4000:
@@ -283,7 +295,8 @@ def judge_rebuild(kind, k, n, ssss, secret, tape, shares, order, acc, res=None):
     srt = tuple(sorted(order))
     what = "secret %s split with k=%d, ssss=%s, tape %s; combine(shares with indexes %r in that order) -> %s" \
         % (sb.hex(), k, ssss, fmt_tape(tape), list(order), fmt_res(res))
-    size = k * 1000 + len(order) * 10 + sum(1 for a, b in zip(order, srt) if a != b)
+    size = ((k * 10 + len(order)) * 10 + sum(1 for a, b in zip(order, srt) if a != b)) * 10000 \
+        + secret.bit_length() + sum(c.bit_length() for c in tape)                  # simplest case first
     if tuple(order) != srt and real_combine([(i, by[i]) for i in srt], ssss) == ("ok", sb):
         acc.violation("C20/combine/%s/result-depends-on-the-order-of-shares" % mode(ssss),
                       what + " although the same shares in index order give the secret", case, size=size)
@@ -311,7 +324,8 @@ def judge_kminus1(k, n, ssss, secret, tape, shares, order, acc):
                       "secret %s split with k=%d, ssss=%s, tape %s; combine of only %d shares %r returned the secret "
                       "(interpolation of these points gives %s)" % (sb.hex(), k, ssss, fmt_tape(tape), k - 1, list(order), ref.hex()),
                       {"part": "combine", "kind": "k-1-shares", "k": k, "n": n, "ssss": ssss, "secret": sb,
-                       "tape": [b16(c) for c in tape], "order": list(order)}, size=k * 1000)
+                       "tape": [b16(c) for c in tape], "order": list(order)},
+                      size=k * 10000 + secret.bit_length() + sum(c.bit_length() for c in tape))
     elif res != ("ok", ref):
         acc.observe("combine() of k-1 shares differs from plain Lagrange interpolation of the presented points "
                     "(not demanded by the property)")
@@ -573,7 +587,8 @@ def witness_case(k, ssss, secret, tape, J, alt, acc, shares=None):
                       "%s reproduce exactly these shares in the reference polynomial, but the real split() run on that tape does "
                       "not (%s; tape reads %r)"
                       % (k, ssss, sb.hex(), fmt_tape(tape), list(J), short([by[x] for x in J]), b16(alt).hex(), fmt_tape(tape2),
-                         res[1] if res[0] == "exc" else "different shares", calls), case, size=k)
+                         res[1] if res[0] == "exc" else "different shares", calls), case,
+                      size=k * 10000 + secret.bit_length() + alt.bit_length() + sum(c.bit_length() for c in tape))
 
 
 def witness_worker(shard):
@@ -846,7 +861,7 @@ def field_worker(shard):
 # ---------------------------------------------------------------------------
 def _cost(k):
     """rough seconds per combine case (all ordered k-subsets of 6 shares)"""
-    return {2: 0.05, 3: 0.25, 4: 1.3, 5: 3.2, 6: 3.8}[k]
+    return {2: 0.05, 3: 0.22, 4: 0.7, 5: 1.6, 6: 1.9}[k]
 
 
 def run(ctx):
@@ -868,7 +883,7 @@ def run(ctx):
         ncomb[k] = len(cases)
         # supersets and (k-1)-subsets: on every case for k >= 4; for k = 2, 3 on the sub-grid secret in T4, tape in T4^(k-1)
         cs = [(s, t, k >= 4 or (s in T4 and all(c in T4 for c in t))) for s, t in cases]
-        per = max(1, int(8.0 / _cost(k)))
+        per = max(1, int(6.0 / _cost(k)))
         for ssss in (False, True):
             for i in range(0, len(cs), per):
                 shards.append((_cost(k) * len(cs[i:i + per]), combine_worker, (k, ssss, cs[i:i + per])))
